@@ -1,0 +1,13 @@
+//go:build verif
+
+package fileops
+
+// VerifSwapLocalFS replaces the VFS used for local paths and returns the previous one.
+// Verification harness hook (C01, C03): lets the harness wrap the local file system with a recorder that is
+// called back before/after every mutation so that a crash image can be frozen between two mutations.
+// No behaviour of its own.
+func VerifSwapLocalFS(v VFS) VFS {
+	old := localFS
+	localFS = v
+	return old
+}
